@@ -108,3 +108,5 @@ Definition chk_scan (t : list entry) (p : str) (subs : subs_t) (recorded : list 
   end.
 
 Definition chk_all_paths (t : list entry) (exp : list str) : bool := set_eqb_str (all_paths t) exp.
+
+Definition chk_parts_ok (p : str) (subs : subs_t) : bool := conv_parts_ok p subs.
